@@ -11,7 +11,7 @@ ALLOW = C11.ALLOW
 INITS = C11.INITS
 OPTIONS = C11.OPTIONS
 NATIVE = False
-TAG_FILTER = ('C13/', 'C11/K1/', 'C14/L2/')
+TAG_FILTER = ('C13/', 'C11/K1/', 'C11/K1c/', 'C14/L2/')
 ANCHOR_FILES = ['/repo/channel.go', '/repo/node.go']
 
 
@@ -22,6 +22,7 @@ def tasks(tier):
     ts += [Task('verifHarness_C13_failed_write', [cause, k, 0]) for cause in (0, 1, 2, 3, 4, 5, 6, 7, 8) for k in (1, 2, 3)]
     ts += [Task('verifHarness_C13_failed_write', [cause, 1, 1]) for cause in (0, 1)]
     ts += [Task('verifHarness_C13_node_keeps_serving', [p]) for p in (0, 1)]
+    ts += [Task('verifHarness_C11_dispatch_closing', [kind, c]) for kind in (0, 1) for c in (0, 1, 2)]
     for kind in (0, 1, 2):
         for member in ((7, 5, 3) if tier == 'quick' else range(8)):
             for target in ((0,) if kind == 0 else (0, 3)):
@@ -30,7 +31,7 @@ def tasks(tier):
 
 
 def required_reach(tier):
-    return ['C13/K2', 'C11/K1', 'C13/S', 'C13/L1', 'C14/L2', 'C13/N', 'C13/K2b']
+    return ['C13/K2', 'C11/K1', 'C13/S', 'C13/L1', 'C14/L2', 'C13/N', 'C13/K2b', 'C11/K1c']
 
 
 def bounds(tier):
